@@ -20,8 +20,8 @@ Rec == ndJsonDeserialize(IOEnv.TRACE)
 PROP == IOEnv.PROP
 On(p) == PROP = p \/ PROP = "ALL"
 
-VARIABLES l, cfg, node, dig, last
-vars == <<l, cfg, node, dig, last>>
+VARIABLES l, cfg, node, dig, last, res
+vars == <<l, cfg, node, dig, last, res>>
 
 Chk(name, cond, info) == IF cond THEN TRUE ELSE PrintT(<<"FAIL", name, "line", l, info>>) /\ FALSE
 ChkKF(name, cond, kf, kfname, info) ==
@@ -41,7 +41,19 @@ Bind(name, chain, count, d, info) ==
        /\ dig' = dig
   ELSE dig' = dig @@ (Key(chain, count) :> d)
 
-Init == l = 1 /\ cfg = <<>> /\ node = <<>> /\ dig = <<>> /\ last = [kind |-> "none"]
+Init == l = 1 /\ cfg = <<>> /\ node = <<>> /\ dig = <<>> /\ last = [kind |-> "none"] /\ res = <<>>
+
+\* C13: a crashed run and its uninterrupted control (same history, Reset.pair names the pair): the k-th
+\* update of both must end the same way ("continuing to index produces the same content as an
+\* uninterrupted run" -- the contents themselves are compared through dig)
+PairStep(r) ==
+  IF On("C13") /\ cfg.pair # "" /\ r.result # "hang"
+  THEN LET key == <<cfg.pair, r.k>> IN
+       IF key \in DOMAIN res
+       THEN /\ Chk("C13.sameAsUninterrupted", res[key] = <<r.result, r.count>>, <<key, "first", res[key], "now", <<r.result, r.count>>>>)
+            /\ res' = res
+       ELSE res' = res @@ (key :> <<r.result, r.count>>)
+  ELSE res' = res
 
 \* recorded finding C14-rollback-above-fork: the hang whose last rollback restored a savepoint
 \* that still holds blocks above the fork point (DESIGN 6.1)
@@ -52,9 +64,9 @@ RollbackAboveFork(r) ==
 Next ==
   /\ l <= Len(Rec)
   /\ LET r == Rec[l] IN
-     CASE r.e = "Reset" -> /\ cfg' = r /\ node' = <<>> /\ last' = [kind |-> "none"] /\ UNCHANGED dig
-       [] r.e = "Block" -> /\ node' = Append(node, r.id) /\ last' = [kind |-> "node"] /\ UNCHANGED <<cfg, dig>>
-       [] r.e = "Pop" -> /\ node' = SubSeq(node, 1, Len(node) - r.k) /\ last' = [kind |-> "node"] /\ UNCHANGED <<cfg, dig>>
+     CASE r.e = "Reset" -> /\ cfg' = r /\ node' = <<>> /\ last' = [kind |-> "none"] /\ UNCHANGED <<dig, res>>
+       [] r.e = "Block" -> /\ node' = Append(node, r.id) /\ last' = [kind |-> "node"] /\ UNCHANGED <<cfg, dig, res>>
+       [] r.e = "Pop" -> /\ node' = SubSeq(node, 1, Len(node) - r.k) /\ last' = [kind |-> "node"] /\ UNCHANGED <<cfg, dig, res>>
        [] r.e = "Update" ->
             /\ (On("C14") \/ On("C12") \/ On("C13") =>
                   ChkKF("update.terminates", r.result # "hang",
@@ -69,16 +81,17 @@ Next ==
                   \* blocks of an abandoned branch are never kept silently
                   /\ (On("C14") /\ r.result = "ok" => Chk("C14.noStale", IsPrefixOf(r.indexed, node), r.indexed)))
             /\ last' = [kind |-> "update", result |-> r.result]
+            /\ PairStep(r)
             /\ UNCHANGED <<cfg, node, dig>>
        [] r.e = "Digest" ->
             /\ Chk("digest.count", CountOk(r.count, r.indexed), r.count)
             /\ Bind("content.function-of-chain", r.indexed, r.count, r.digest, "index")
-            /\ last' = [kind |-> "digest"] /\ UNCHANGED <<cfg, node>>
+            /\ last' = [kind |-> "digest"] /\ UNCHANGED <<cfg, node, res>>
        [] r.e = "Fresh" ->
             /\ Chk("fresh.count", CountOk(r.count, r.chain), <<r.count, Len(r.chain)>>)
             /\ Bind("content.equals-from-scratch", r.chain, r.count, r.digest, "fresh")
-            /\ last' = [kind |-> "fresh"] /\ UNCHANGED <<cfg, node>>
-       [] r.e = "Reopen" -> /\ last' = [kind |-> "reopen"] /\ UNCHANGED <<cfg, node, dig>>
+            /\ last' = [kind |-> "fresh"] /\ UNCHANGED <<cfg, node, res>>
+       [] r.e = "Reopen" -> /\ last' = [kind |-> "reopen"] /\ UNCHANGED <<cfg, node, dig, res>>
        [] r.e = "Crash" ->
             \* C13: after the crash the reopened index is at a fully committed height: the last
             \* block count made durable before the crash (or the count before the update started)
@@ -89,8 +102,8 @@ Next ==
                          IF r.durable = <<>> THEN r.count = r.before
                          ELSE r.count = r.durable[Len(r.durable)],
                          <<"count", r.count, "durable", r.durable, "before", r.before>>))
-            /\ last' = [kind |-> "crash"] /\ UNCHANGED <<cfg, node, dig>>
-       [] OTHER -> UNCHANGED <<cfg, node, dig, last>>
+            /\ last' = [kind |-> "crash"] /\ UNCHANGED <<cfg, node, dig, res>>
+       [] OTHER -> UNCHANGED <<cfg, node, dig, last, res>>
   /\ l' = l + 1
 
 Spec == Init /\ [][Next]_vars
